@@ -6,6 +6,7 @@ GEN_NAME = "Acl"
 EXTRA_GEN = {"AclMatch": "emit_match", "AclState": "emit_state"}
 
 from harness.extract.util import class_def, find_method, parse, src_of
+from harness.lib.core import SRC
 
 
 def _bound_of(fn: ast.FunctionDef) -> str:
@@ -383,24 +384,76 @@ def _from_config_blocks() -> str:
                 # None if not (p := r_cfg.get('K')) else TABLE[p]   |   r_cfg.get('K')   |   ACLAction[r_cfg['K']]   |   r_num
                 m = re.fullmatch(r"None if not \(p := r_cfg\.get\('(\w+)'\)\) else (\w+)\[p\]", s)
                 if m:
-                    kws.append((k.arg, m.group(1), m.group(2)))
+                    kws.append((k.arg, [m.group(1)], m.group(2)))
                     continue
                 m = re.fullmatch(r"r_cfg\.get\('(\w+)'\)", s)
                 if m:
-                    kws.append((k.arg, m.group(1), "-"))
+                    kws.append((k.arg, [m.group(1)], "-"))
+                    continue
+                m = re.fullmatch(r"r_cfg\.get\('(\w+)', r_cfg\.get\('(\w+)'\)\)", s)  # a second, alternative spelling of the key
+                if m:
+                    kws.append((k.arg, [m.group(1), m.group(2)], "-"))
                     continue
                 m = re.fullmatch(r"ACLAction\[r_cfg\['(\w+)'\]\]", s)
                 if m:
-                    kws.append((k.arg, m.group(1), "ACLAction"))
+                    kws.append((k.arg, [m.group(1)], "ACLAction"))
                     continue
                 _need(s == "r_num", f"loader keyword {k.arg}={s}")
-                kws.append((k.arg, "<key>", "-"))
+                kws.append((k.arg, [], "<mapping key>"))
             src = _u(loop.iter)
             blocks.append((cls, _u(calls[0].func.value), src, kws))
-    return ("/-- the loaders' rule loops: (class, list object the rule is added to, mapping iterated, [(parameter, config key, lookup table)]) -/\n"
-            "def loaderBlocks : List (String × String × String × List (String × String × String)) := "
+    return ("/-- the loaders' rule loops: (class, list object the rule is added to, mapping iterated, [(parameter, config keys read "
+            "— first one wins —, lookup table)]) -/\n"
+            "def loaderBlocks : List (String × String × String × List (String × List String × String)) := "
             + _lean_list(blocks, lambda b: f"({_lean_str(b[0])}, {_lean_str(b[1])}, {_lean_str(b[2])}, "
-                         + _lean_list(b[3], lambda k: f"({_lean_str(k[0])}, {_lean_str(k[1])}, {_lean_str(k[2])})") + ")") + "\n")
+                         + _lean_list(b[3], lambda k: f"({_lean_str(k[0])}, {_lean_list(k[1], _lean_str)}, {_lean_str(k[2])})") + ")") + "\n")
+
+
+def _yaml_acl_keys(text: str) -> set:
+    """keys written under an `acl:` mapping of a YAML example (line based: the examples contain `...` placeholders)"""
+    keys, lines, i = set(), text.splitlines(), 0
+    while i < len(lines):
+        m = re.match(r"^(\s*)acl:\s*$", lines[i])
+        if not m:
+            i += 1
+            continue
+        ind, j = len(m.group(1)), i + 1
+        while j < len(lines) and (not lines[j].strip() or len(lines[j]) - len(lines[j].lstrip()) > ind):
+            mm = re.match(r"^\s*([A-Za-z_]\w*):", lines[j])
+            if mm:
+                keys.add(mm.group(1))
+            j += 1
+        i = j
+    return keys
+
+
+def _documented_keys(fw_lists) -> str:
+    """Rule keys the documentation tells users to write: the `acl` bullets of `Router.from_config`'s docstring and every key
+    under an `acl:` mapping in the configuration pages (docs/source/configuration/simulation/nodes/*.rst)."""
+    rt = class_def(parse(ROUTER), "Router")
+    doc = ast.get_docstring(find_method(rt, "from_config")) or ""
+    dkeys, inside, ind0 = [], False, 0
+    for line in doc.splitlines():
+        m = re.match(r"^(\s*)- (\w+) \(", line)
+        if m and m.group(2) == "acl":
+            inside, ind0 = True, len(m.group(1))
+            continue
+        if inside and m:
+            if len(m.group(1)) <= ind0:
+                inside = False
+            else:
+                dkeys.append(m.group(2))
+    _need(dkeys, "Router.from_config docstring lists the acl rule keys")
+    docs = SRC.parents[1] / "docs" / "source" / "configuration" / "simulation" / "nodes"
+    ykeys = set()
+    files = sorted(docs.glob("*.rst"))
+    _need(files, f"no configuration pages under {docs}")
+    for f in files:
+        ykeys |= _yaml_acl_keys(f.read_text())
+    ykeys -= {name for name, _ in fw_lists}
+    allk = sorted(set(dkeys) | ykeys)
+    return ("/-- rule keys the documentation tells users to write under `acl:` (from_config docstring + configuration pages) -/\n"
+            f"def documentedRuleKeys : List String := {_lean_list(allk, _lean_str)}\n")
 
 
 def _device_defaults() -> str:
@@ -514,4 +567,11 @@ def emit_state() -> str:
     acl = class_def(parse(ROUTER), "AccessControlList")
     return ("import PrimaiteModel.Model.AclObj\nimport PrimaiteModel.Gen.AclMatch\nnamespace Primaite.Gen.AclState\nopen Primaite.Acl\n"
             + _is_permitted_lean(acl) + _ctor_lean(acl) + _readers_lean(acl) + _add_rule_plumbing(acl) + _actions_lean()
-            + _from_config_blocks() + _device_defaults() + _frame_lean() + "end Primaite.Gen.AclState\n")
+            + _from_config_blocks() + _device_defaults() + _documented_keys(_fw_list_rows()) + _frame_lean()
+            + "end Primaite.Gen.AclState\n")
+
+
+def _fw_list_rows():
+    fw = class_def(parse(FIREWALL), "Firewall")
+    return [(_u(st.target), None) for st in fw.body if isinstance(st, ast.AnnAssign) and _u(st.annotation) == "AccessControlList"]
+
